@@ -164,6 +164,8 @@ def describe(ch):
             s.append("default %r" % txt(l["def"]))
         return "{" + "; ".join(s) + "}"
     where = "" if ch.get("ctx", "plain") == "plain" else " [leaf: %s]" % ch["ctx"]
+    if ch.get("lay") == "xmod" and ch.get("mod") == "b" or ch.get("lay") == "xmod" and len(ch["levels"]) > 1:
+        where = " [innermost typedef in module a, used from module b]" + where
     return ch["k"] + " " + " <- ".join(lv(l) for l in ch["levels"]) + where
 
 
